@@ -86,19 +86,6 @@ package query
 //@   ensures [other-tables-untouched] forallv(k, string, k != idPath(fileInfo) ==> has(m.Updated, k) == old(has(m.Updated, k)) && has(m.Created, k) == old(has(m.Created, k)))
 //@   modifies mutexHeld, m.Updated[*], m.Created[*]
 
-// C05: UPDATE stores the assigned value into the named column of the matched row: after the assignment of one SET item the
-// cell of that column holds the value the item's expression evaluated to (whatever the cell held before, also a value that
-// compares equal to it).
-//@ func Update!assign
-//@   property C05
-//@   abstract *
-//@   loop 3 step [named-column-gets-the-assigned-value] viewsToUpdate[viewref].RecordSet[internalId][fieldIdx][0] == val
-//@   modifies *
-//@ func NewCell
-//@   property C05
-//@   ensures [one-value-cell] len(result) == 1 && result[0] == val && fresh(result)
-//@   modifies nothing
-
 // MAX / MIN: NULL exactly when the bucket holds no value; otherwise one of the bucket's own (non-NULL) values
 //@ func Max
 //@   property C04
@@ -117,18 +104,6 @@ package query
 //@   loop 1 invariant 0 <= $i && $i <= len(list)
 //@   loop 1 invariant (result@1 == value.null) == (nnCount(list, $i) == 0)
 //@   loop 1 invariant result@1 != value.null ==> exists(k, 0, $i, list[k] == result@1)
-//@   modifies *
-
-// SUM / AVG / VAR / STDEV work on the numeric readings of the bucket's values: one number per value that reads as a number
-// (value.floatOk, the reading ToFloat is proved against), none for the others
-//@ spec func flCount(s []value.Primary, k int) int reads elems(s) fields(value.String) fields(value.Integer) fields(value.Float)
-//@ axiom fl_zero: forallv(s, []value.Primary, flCount(s, 0) == 0)
-//@ axiom fl_step: forallv(s, []value.Primary, forall(k, 0, MaxInt64, flCount(s, k + 1) == flCount(s, k) + ite(value.floatOk(s[k]), 1, 0)))
-//@ axiom fl_bounds: forallv(s, []value.Primary, forall(k, 0, MaxInt64, 0 <= flCount(s, k) && flCount(s, k) <= k))
-//@ func floatList
-//@   property C04
-//@   ensures [one-number-per-numeric-value] len(result) == flCount(list, len(list))
-//@   loop 1 invariant 0 <= $i && $i <= len(list) && len(values) == flCount(list, $i)
 //@   modifies *
 
 // ---------------------------------------------------------------------------------------------
